@@ -242,13 +242,26 @@ def _accesses_in(fn: ast.FunctionDef, sample: str, env: dict[str, str], tree: as
     env = _local_aliases(fn, env)
     mods, meths = module_functions(tree), methods(cls)
     rows: list[tuple[str, str]] = []
+    # `for key in ("a", "b"): … sample[key] …`: the loop variable stands for each of the literal keys
+    multi: dict[str, list[str]] = {}
+    for n in ast.walk(fn):
+        if isinstance(n, (ast.For, ast.comprehension)) and isinstance(n.target, ast.Name) and \
+                isinstance(n.iter, (ast.Tuple, ast.List)) and n.iter.elts and \
+                all(isinstance(e, (ast.Constant, ast.Attribute)) for e in n.iter.elts):
+            multi[n.target.id] = [_norm_key(e, env) for e in n.iter.elts]
+
+    def keys_of(node):
+        if isinstance(node, ast.Name) and node.id in multi and node.id not in env:
+            return multi[node.id]
+        return [_norm_key(node, env)]
+
     for n in ast.walk(fn):
         if isinstance(n, ast.Subscript) and isinstance(n.value, ast.Name) and n.value.id == sample:
             mode = "write" if isinstance(n.ctx, (ast.Store, ast.Del)) else "read"
-            rows.append((mode, _norm_key(n.slice, env)))
+            rows.extend((mode, k_) for k_ in keys_of(n.slice))
         elif isinstance(n, ast.Compare) and len(n.ops) == 1 and isinstance(n.ops[0], (ast.In, ast.NotIn)) and \
                 isinstance(n.comparators[0], ast.Name) and n.comparators[0].id == sample:
-            rows.append(("read", _norm_key(n.left, env)))
+            rows.extend(("read", k_) for k_ in keys_of(n.left))
         elif isinstance(n, (ast.For, ast.comprehension)) and isinstance(n.iter, ast.Name) and n.iter.id == sample:
             rows.append(("read", "*"))
         elif isinstance(n, ast.Call):
